@@ -88,14 +88,17 @@ func LengthEncodedString(data []byte) ([]byte, int, error) {
 	if isNull {
 		return nil, n, err
 	}
-
-	n += int(num)
-
-	// Check data length
-	if len(data) >= n {
-		return data[n-int(num) : n], n, nil
+	if err != nil {
+		return nil, 0, err
 	}
-	return nil, n, io.EOF
+
+	// Check data length. Compare as uint64 without addition: the length is taken from the packet as is
+	// and may not fit into int
+	if num > uint64(len(data)-n) {
+		return nil, n, io.EOF
+	}
+	n += int(num)
+	return data[n-int(num) : n], n, nil
 }
 
 // SkipLengthEncodedString https://dev.mysql.com/doc/internals/en/string.html#packet-Protocol::LengthEncodedString
@@ -108,12 +111,11 @@ func SkipLengthEncodedString(data []byte) (int, error) {
 		return n, nil
 	}
 
-	n += int(num)
-
-	if len(data) >= n {
-		return n, nil
+	// compare as uint64 without addition: the length is taken from the packet as is and may not fit into int
+	if num > uint64(len(data)-n) {
+		return n, io.EOF
 	}
-	return n, io.EOF
+	return n + int(num), nil
 }
 
 // PutLengthEncodedInt https://dev.mysql.com/doc/internals/en/integer.html#packet-Protocol::LengthEncodedInteger
